@@ -46,6 +46,10 @@ CLAIMED = {
         "text": "bounded schedule exploration: every order of enabled tasks at blocking points (plus preemptions at synchronisation operations in the invalids harness) is a decision of the explorer; on each schedule the response equals the schedule-free reference and a vector-clock happens-before check covers every load/store; mutation root fields proven serial on every schedule",
         "design_ref": "DESIGN.md section 4, C06", "note": _N + _PROBE + "; race counterexamples are confirmed with go test -race", "technique": _T + "; happens-before race detection over explored schedules",
     },
+    "C02": {
+        "text": "full width for typed integers (every Unmarshal{Int,Int64,Int32,Uint,Uint64,Uint32,IntID,UintID} on int/int64/int32/uint64 inputs with symbolic 64-bit values: accepted => mathematically unchanged, in range => accepted); boundary grid for numeric texts; generated argument binders on a 23-case corpus compared with hand-annotated coerced values (2 configurations quick, 4 thorough)",
+        "design_ref": "DESIGN.md section 4, C02", "note": _N + _PROBE + "; options that change resolver signatures (nullable_input_omittable, struct_fields_always_pointers) are outside the bound", "technique": _T,
+    },
     "C03": {
         "text": "bounded: real Executor.CreateOperationContext/parseQuery/DispatchOperation with the real gqlparser interpreted, over a 12-request corpus x symbolic mutator verdicts x cache states x suggestion setting; hook order over all lists of <=3 extensions from 5 hook subsets; the solver decides every branch and assertion inside these bounds",
         "design_ref": "DESIGN.md section 4, C03", "note": _N, "technique": _T,
